@@ -171,6 +171,7 @@ func init() {
 			"the 8 UpdateTask literals match their templates: only claim sets Claimed (from {Init,Enqueued}, same counter, lease now+ttl, requester as holder); complete from {Claimed}; lease sweep bumps the counter by one; no literal re-activates a finished task or lowers the counter (R9 + R8)",
 			"a new claimed task row can only be born through INSERT … ON CONFLICT(id) DO NOTHING (never re-claims an existing task)",
 			"0 rows ⇒ retry in claim and complete; the response shows what was written (R6)",
+			"every task command of a batch (claim, complete, heartbeat) is executed by its own dispatch arm and its result comes from its own statement — a heartbeat is never answered from an earlier one (M-DISPATCH always-executed)",
 		},
 		[]string{"interleavings of several workers", "ttl arithmetic overflow"}).
 		rule("R7-decision-tables", ruleTables(tblClaim, tblCompleteTask)).
